@@ -428,12 +428,28 @@ def rich_images(b, basedir, profiles, params, cat):
         _sources(outdir, cat["rows"])
         with cf.ThreadPoolExecutor(max_workers=8) as ex:
             infos = list(ex.map(lambda p: _build_one(b, basedir, outdir, p, params[p], cat), profiles))
-            todo = [(p, v) for p in profiles for v in cat.get("variants", []) if v and any(i["profile"] == p and i["ok"] for i in infos)]
-            infos += list(ex.map(lambda pv: _build_variant(b, outdir, pv[0], pv[1]), todo))
         res = {i["profile"]: i for i in infos}
         with open(meta, "w") as f:
             json.dump(res, f, indent=1)
         return outdir, res
+
+
+def variant_images(b, outdir, wanted):
+    """Builds (once; cached in `outdir` next to the images of rich_images) the catalogue variants `wanted` = ["<profile>+<variant>", ...];
+    returns {name: info}."""
+    vmeta = os.path.join(outdir, "variants.json")
+    with Lock(os.path.join(b, "verif-c11.lock")):
+        have = json.load(open(vmeta)) if os.path.exists(vmeta) else {}
+        todo = [w for w in wanted if w not in have]
+        if todo:
+            with cf.ThreadPoolExecutor(max_workers=8) as ex:
+                for i in ex.map(lambda w: _build_variant(b, outdir, w.split("+")[0], w.split("+")[1]), todo):
+                    have[i["profile"]] = i
+            tmp = vmeta + ".tmp"
+            with open(tmp, "w") as f:
+                json.dump(have, f, indent=1)
+            os.replace(tmp, vmeta)
+        return {w: have[w] for w in wanted}
 
 
 if __name__ == "__main__":
@@ -459,3 +475,4 @@ if __name__ == "__main__":
         o = observe(sys.argv[1], True)
         o["inodes"] = o["inodes"][:5]
         print(json.dumps(o)[:3000])
+
